@@ -1288,6 +1288,14 @@ func (g *G) subStmtL(inList bool) Out {
 			s += " Decl(" + kind + " Binding(" + b.Str + "))"
 		default:
 			t := g.simpleTarget()
+			if !of && g.chance("asynclhs", 6) {
+				// the identifier async as the left-hand side (in a for-of head the grammar forbids it without parentheses)
+				t = Out{tk("async"), "async"}
+				if g.chance("asyncmember", 3) {
+					t = Out{tk("async", ".", "x"), "(async.x)"}
+				}
+				g.Kinds["forin-async"]++
+			}
 			if t.Toks[0].S == "let" || (of && t.Toks[0].S == "async") {
 				t = group(t)
 			}
